@@ -1091,6 +1091,7 @@ func (fr *FnRun) loopEnter(st *State, li *loopInfo, head, prev *ssa.BasicBlock) 
 		st.vals[ph] = v
 	}
 	fr.havocLoopWrites(st, li, spec)
+	fr.loopCallCounters(st, li)
 	hv := map[*ssa.Phi]Val{}
 	for _, ph := range phis {
 		hv[ph] = st.vals[ph]
@@ -1113,7 +1114,6 @@ func (fr *FnRun) loopEnter(st *State, li *loopInfo, head, prev *ssa.BasicBlock) 
 			}
 		}
 	}
-	fr.loopCallCounters(st, li)
 	st.note(fmt.Sprintf("loop L%d", li.ordinal))
 	if spec.Decreases != nil {
 		st.vals[decKey(li)] = fr.evalTerm(spec.Decreases, env2)
